@@ -1,4 +1,11 @@
 pub mod c01;
+pub mod c03;
+pub mod c06;
+pub mod c07;
+pub mod c11;
+pub mod c12;
+pub mod c13;
+pub mod c16;
 
 use crate::domain::Tier;
 use crate::oracle::Oracle;
@@ -14,6 +21,20 @@ pub struct Ctx {
     pub only_input: Option<String>,
     /// file that receives "<decl> <input index>" before each potentially non-terminating call
     pub heartbeat: Option<String>,
+    pub part: usize,
+    pub parts: usize,
+    /// set by the runner when this process does not own the declaration and must only do its slice of a 2^32 sweep
+    pub sweep_slice_only: std::cell::Cell<bool>,
+}
+
+impl Ctx {
+    /// this process's slice of 0..=u32::MAX
+    pub fn sweep_range(&self) -> (u64, u64) {
+        let total: u64 = 1u64 << 32;
+        let a = total * self.part as u64 / self.parts as u64;
+        let b = total * (self.part as u64 + 1) / self.parts as u64;
+        (a, b)
+    }
 }
 
 pub type Monitor = fn(&dyn Subject, &Ctx) -> Option<DeclReport>;
@@ -21,6 +42,13 @@ pub type Monitor = fn(&dyn Subject, &Ctx) -> Option<DeclReport>;
 pub fn monitor_for(property: &str) -> Option<Monitor> {
     match property {
         "C01" => Some(c01::run),
+        "C03" => Some(c03::run),
+        "C06" => Some(c06::run),
+        "C07" => Some(c07::run),
+        "C11" => Some(c11::run),
+        "C12" => Some(c12::run),
+        "C13" => Some(c13::run),
+        "C16" => Some(c16::run),
         _ => None,
     }
 }
